@@ -101,12 +101,13 @@ def altAll : List (Option Disp) → Option Disp
     | some e => some (d.alt e)
 
 /-- expressions: `ExprBuilder` / `BranchBuilder` (desugaring), `ExprSynthesizer` | `ExprChecker`
-    (evaluation positions), `AssignTarget` (assignment targets) are alternatives -/
+    (evaluation positions), `AssignTarget` (assignment targets), `ModifierItem` (the context expression of a
+    `with` item, consumed by `CFGBuilder._handle_withitem`) are alternatives -/
 def exprDisp (k : Kind) (f : Field) : Disp :=
   let built := visitHow T .ExprBuilder k = some .explicit ∨ visitHow T .BranchBuilder k = some .explicit
   match altAll [consumer T .ExprBuilder k f built, consumer T .BranchBuilder k f built,
       consumer T .ExprSynthesizer k f built, consumer T .ExprChecker k f built,
-      consumer T .AssignTarget k f built] with
+      consumer T .AssignTarget k f built, consumer T .ModifierItem k f built] with
   | some d => d
   | none => if genericHow T .ExprSynthesizer = .rejects then .nodeRejected else .ignored
 
